@@ -109,6 +109,18 @@ class Mirror:
         self.clean = True
         self.removed_then_inserted = False
         self.had_removal = False
+        self.seen_all_removed = False     # ActualSize() == 0 while removed slots may remain (Size() != 0)
+        self.seen_emptied = False         # Size() == 0 again after the table held entries
+        self.had_entries = False
+
+    def note(self):
+        if self.l:
+            self.had_entries = True
+        elif self.had_entries:
+            if self.clean:
+                self.seen_emptied = True
+            else:
+                self.seen_all_removed = True
 
     def find(self, k):
         for i, kv in enumerate(self.l):
@@ -152,14 +164,30 @@ def gen_history(rng, nkeys, nops, inst, keys):
         return rng.randrange(1, 60) if hv else 0
 
     weights = [("I", 22), ("G", 8 if hv else 0), ("O", 4 if hv else 0), ("J", 4), ("R", 12), ("X", 5), ("Y", 4), ("N", 8), ("Z", 3),
-               ("E", 3), ("C", 3), ("L", 1), ("T", 1), ("V", 1), ("W", 2), ("S", 4), ("P", 3), ("M", 2), ("U", 6)]
+               ("E", 3), ("C", 3), ("L", 2), ("T", 1), ("V", 1), ("W", 2), ("Q", 1), ("S", 4), ("P", 3), ("M", 2), ("U", 6), ("drain", 3)]
     names = [w[0] for w in weights]
     ws = [w[1] for w in weights]
     # a phase bias: sometimes a history that only grows, sometimes heavy removal
     for _ in range(nops):
+        mir.note()
         c = rng.choices(names, ws)[0]
         k = rng.randrange(nkeys)
-        if c == "I":
+        if c == "drain":
+            # remove every live key (sometimes all but one), by key or through its index: ActualSize() == 0 with
+            # removed slots left, the state in which Sort / Clear / the next inserts meet stale structure
+            victims = [kv[0] for kv in mir.l]
+            rng.shuffle(victims)
+            if victims and rng.random() < 0.3:
+                victims.pop()
+            for q in victims:
+                ops.append(rng.choice(["R:%d:0", "R:%d:1", "Y:%d"]) % q)
+                mir.remove(q)
+                mir.note()
+        elif c == "Q":
+            ops.append("Q:%d" % rng.randrange(2))
+            mir.l = []
+            mir.clean = True
+        elif c == "I":
             v = val()
             # all four Insert overloads ((Key&&|const Key&) x (Value&&|const Value&)); HList: Key&& / const Key&
             ops.append("I:%d:%d:%d" % (k, v, rng.randrange(4)))
@@ -262,7 +290,113 @@ def gen_history(rng, nkeys, nops, inst, keys):
                                        ".".join(str(a) for a in rm) if rm else "_"))
             for (a, v) in src.l:
                 mir.put(a, v)
-    return ops[:nops], mir.removed_then_inserted
+    mir.note()
+    return ops[:nops], mir
+
+
+def gen_scenario(rng, hashes, inst):
+    """Refill after emptying: fill, remove every key (or all but one) by key / by index, optionally Sort (both
+    directions) and / or Compress / Resize / Expect, then Clear / Reset / Reserve / h = Table(n) / assignment from an
+    empty table / nothing, then re-insert keys CHOSEN BY THEIR HASH -- bucket 0 at every capacity up to 16
+    (hash & 15 == 0) and a non-zero bucket at every capacity (hash odd) -- in both orders, then removals (lookups
+    of every key of the alphabet follow each step).  Stale structure left behind by the emptying (heads, links of
+    removed slots chained by generateHash after a Sort) shows as a key that is stored but not found."""
+    hv = inst != 2
+    zs = [k for k, h in hashes.items() if h & 15 == 0 and len(k) <= 6]
+    od = [k for k, h in hashes.items() if h & 1 == 1 and len(k) <= 6]
+    ot = [k for k, h in hashes.items() if h & 15 not in (0,) and h & 1 == 0 and len(k) <= 6]
+    keys = rng.sample(zs, min(len(zs), rng.randrange(2, 4))) + rng.sample(od, min(len(od), rng.randrange(2, 4))) + \
+        rng.sample(ot, min(len(ot), rng.randrange(0, 3)))
+    keys = list(dict.fromkeys(keys))
+    nz = [i for i, k in enumerate(keys) if hashes[k] & 15 == 0]
+    no = [i for i, k in enumerate(keys) if hashes[k] & 1 == 1]
+    mir = Mirror()
+    ops = []
+
+    def val():
+        return rng.randrange(1, 60) if hv else 0
+
+    def ins(k):
+        v = val()
+        c = rng.choice(["I", "I", "G", "O", "J"]) if hv else rng.choice(["I", "I", "J"])
+        if c == "I":
+            ops.append("I:%d:%d:%d" % (k, v, rng.randrange(4)))
+            mir.put(k, v)
+        elif c == "J":
+            ops.append("J:%d" % k)
+            if mir.find(k) < 0:
+                mir.put(k, 0)
+        else:
+            ops.append("%s:%d:%d" % (c, k, v))
+            mir.put(k, v)
+        mir.note()
+
+    def rem(k):
+        if mir.clean and rng.random() < 0.25 and mir.find(k) >= 0:
+            ops.append("X:%d" % mir.find(k))
+        else:
+            ops.append(rng.choice(["R:%d:0", "R:%d:1", "Y:%d"]) % k)
+        mir.remove(k)
+        mir.note()
+
+    for _cycle in range(rng.randrange(1, 4)):
+        # fill
+        fill = list(range(len(keys)))
+        rng.shuffle(fill)
+        for k in fill[: rng.randrange(1, len(keys) + 1)]:
+            ins(k)
+        # empty by removal (all, or all but one)
+        victims = [kv[0] for kv in mir.l]
+        rng.shuffle(victims)
+        if victims and rng.random() < 0.35:
+            victims.pop()
+        for k in victims:
+            rem(k)
+        # optionally sort / compress / resize / expect in between
+        for c in rng.sample(["S0", "S1", "C", "Z", "E", "S0", "S1"], rng.choice([0, 1, 1, 1, 2])):
+            if c[0] == "S":
+                asc = int(c[1])
+                ops.append("S:%d" % asc)
+                mir.l.sort(key=lambda kv: sort_key(keys[kv[0]]), reverse=(asc == 0))
+            elif c == "C":
+                ops.append("C")
+                mir.clean = True
+            elif c == "Z":
+                if mir.clean or not mir.l:
+                    n = rng.choice([0, 1, len(mir.l), len(mir.l) + 2])
+                    ops.append("Z:%d" % n)
+                    mir.l = mir.l[:n]
+                    mir.clean = True
+            else:
+                ops.append("E:%d" % rng.choice([0, 1, 3, 9]))
+        # clear / reset / reserve / fresh table / assignment from an empty table / nothing
+        c = rng.choice(["L", "L", "L", "T", "V", "W", "Q", "Q", "", ""])
+        if c:
+            ops.append({"L": "L", "T": "T", "V": "V:%d" % rng.choice([0, 2, 4, 9]), "W": "W:%d" % rng.choice([0, 1, 3, 8]),
+                        "Q": "Q:%d" % rng.randrange(2)}[c])
+            mir.l = []
+            mir.clean = True
+        mir.note()
+        # refill with keys chosen by bucket, both orders
+        if nz and no:
+            a, b = rng.choice(no), rng.choice(nz)
+            first = [a, b] if rng.random() < 0.5 else [b, a]
+        else:
+            first = []
+        rest = [k for k in range(len(keys)) if k not in first]
+        rng.shuffle(rest)
+        order = first + rest[: rng.randrange(0, len(rest) + 1)]
+        for k in order:
+            ins(k)
+        # removals (and re-insertions); every step is followed by lookups of all keys
+        rm = list(order)
+        if rng.random() < 0.5:
+            rng.shuffle(rm)
+        for k in rm[: rng.randrange(1, len(rm) + 1)]:
+            rem(k)
+            if rng.random() < 0.2:
+                ins(rng.randrange(len(keys)))
+    return keys, ops, mir
 
 
 def make_case(inst, keys, ops):
@@ -271,7 +405,9 @@ def make_case(inst, keys, ops):
 
 def gen_cases(rng, tier, groups, hashes, boost=1):
     cases = []
-    dist = {"collision_alphabet": 0, "random_alphabet": 0, "short": 0, "long": 0, "inst0": 0, "inst1": 0, "inst2": 0}
+    dist = {"collision_alphabet": 0, "random_alphabet": 0, "short": 0, "long": 0, "inst0": 0, "inst1": 0, "inst2": 0,
+            "scenario_refill_after_emptying": 0, "random_histories": 0, "random_reaching_ActualSize0_with_removed_slots": 0,
+            "random_reaching_Size0_again": 0}
     nontrivial = 0
     if tier == "quick":
         plan = [(5000 * boost, 60)]
@@ -282,13 +418,22 @@ def gen_cases(rng, tier, groups, hashes, boost=1):
             inst = rng.choice([0, 0, 1, 2])
             keys = pick_alphabet(rng, groups, hashes)
             nops = rng.choice([maxops, maxops, rng.randrange(1, maxops + 1), rng.randrange(1, 16)])
-            ops, nt = gen_history(rng, len(keys), nops, inst, keys)
+            if hashes and rng.random() < 0.12:
+                keys, ops, mir = gen_scenario(rng, hashes, inst)
+                dist["scenario_refill_after_emptying"] += 1
+            else:
+                ops, mir = gen_history(rng, len(keys), nops, inst, keys)
+                dist[pick_alphabet.last] += 1
+                dist["random_histories"] += 1
+                dist["random_reaching_ActualSize0_with_removed_slots"] += 1 if mir.seen_all_removed else 0
+                dist["random_reaching_Size0_again"] += 1 if mir.seen_emptied else 0
             cases.append(make_case(inst, keys, ops))
             dist["inst%d" % inst] += 1
-            dist[pick_alphabet.last] += 1
             dist["long" if maxops > 60 else "short"] += 1
-            if nt:
+            if mir.removed_then_inserted:
                 nontrivial += 1
+    for k in ("random_reaching_ActualSize0_with_removed_slots", "random_reaching_Size0_again"):
+        dist["fraction_" + k] = round(dist[k] / max(1, dist["random_histories"]), 3)
     return cases, dist, nontrivial
 
 
@@ -433,7 +578,7 @@ def check(tier):
         "theorems": [{"name": n, "assumptions": a} for n, a in theorems],
         "evaluations": n_total + len(pool),
         "distinct_nontrivial": nontrivial,
-        "rule": "seeded random operation histories (<= %s operations; 17 operation kinds incl. merge by copy/move, rename, sort, resize, copy/move round trips) over alphabets of 3-8 keys, 75%% of them drawn from groups of keys whose implementation hashes agree modulo 2..64 (searched among %d candidate keys incl. the empty key, embedded NULs and bytes >= 128), the rest random bytes; three instances (HArray<String,String>, HArray<String,Value>, HList<String>); after EVERY step Has/GetValue/GetItem/GetKey/GetKeyIndex/ActualSize/iteration are compared with the model and judged by the association-list oracle; slot numbers only in states that cannot hold removed slots. Overloads and members that map to operations the model already has: the four HArray::Insert overloads (Key&&|const Key&) x (Value&&|const Value&) and HList::Insert(Key&&|const Key&) -> OInsert (the lvalue arguments must come back unchanged); Remove(ptr,len) / Remove(const Key&) / Remove(const Char_T*) -> ORemove (the C-string form names the key up to its first NUL; alphabets carry NUL-extended twins); h = Table(n) (explicit HashTable(SizeT)) -> OReserve n; GetValue(const Key&) and GetValue(ptr,len) must return the same pointer; begin()/end() of the non-const and const table (range-for) must visit Size() items, the live ones in the order and with the values of GetKey(i)/GetValue(i) (the model's get_slot sweep), a removed slot as Hash = 0 with the empty key and the default value. non-trivial = a new key is inserted after a removal" % ("60" if tier == "quick" else "400", len(pool)),
+        "rule": "seeded random operation histories (<= %s operations; 17 operation kinds incl. merge by copy/move, rename, sort, resize, copy/move round trips) over alphabets of 3-8 keys, 75%% of them drawn from groups of keys whose implementation hashes agree modulo 2..64 (searched among %d candidate keys incl. the empty key, embedded NULs and bytes >= 128), the rest random bytes; three instances (HArray<String,String>, HArray<String,Value>, HList<String>); after EVERY step Has/GetValue/GetItem/GetKey/GetKeyIndex/ActualSize/iteration are compared with the model and judged by the association-list oracle; slot numbers only in states that cannot hold removed slots. Overloads and members that map to operations the model already has: the four HArray::Insert overloads (Key&&|const Key&) x (Value&&|const Value&) and HList::Insert(Key&&|const Key&) -> OInsert (the lvalue arguments must come back unchanged); Remove(ptr,len) / Remove(const Key&) / Remove(const Char_T*) -> ORemove (the C-string form names the key up to its first NUL; alphabets carry NUL-extended twins); h = Table(n) (explicit HashTable(SizeT)) -> OReserve n; GetValue(const Key&) and GetValue(ptr,len) must return the same pointer; begin()/end() of the non-const and const table (range-for) must visit Size() items, the live ones in the order and with the values of GetKey(i)/GetValue(i) (the model's get_slot sweep), a removed slot as Hash = 0 with the empty key and the default value. 12%% of the histories are refill-after-emptying scenarios (gen_scenario: every key removed by key / index, optional Sort / Compress / Resize, then Clear / Reset / Reserve / fresh or empty-assigned table, then re-insertion of keys chosen by the implementation's hash to hit bucket 0 and a non-zero bucket in both orders, then removals); the fraction of ordinary histories that reach ActualSize() == 0 with removed slots / Size() == 0 again is in input_distribution. non-trivial = a new key is inserted after a removal" % ("60" if tier == "quick" else "400", len(pool)),
         "samples": [cases[0][:300], cases[len(cases) // 2][:300], cases[-1][:300]],
         "input_distribution": dist,
         "operation_steps_checked": steps,
